@@ -224,6 +224,13 @@ pub enum WalkResult {
 /// walk the automaton and the spec in lock-step from the initial state; the spec must be
 /// conflict-free and complete on every label reached
 pub fn lockstep(spec: &Spec, a: &Automaton) -> WalkResult {
+    lockstep_seeded(spec, a, &[])
+}
+
+/// the same walk started from the initial state and from further (label, state id) pairs: used to
+/// compare the part of the specification that is not reachable from the initial label, under an
+/// assumed correspondence between the remaining labels and the remaining states
+pub fn lockstep_seeded(spec: &Spec, a: &Automaton, seeds: &[(u32, usize)]) -> WalkResult {
     let view = spec.view();
     let mut map: BTreeMap<u32, usize> = BTreeMap::new();
     let mut rev: HashMap<usize, u32> = HashMap::new();
@@ -231,6 +238,14 @@ pub fn lockstep(spec: &Spec, a: &Automaton) -> WalkResult {
     map.insert(spec.init, a.initial_state().id());
     rev.insert(a.initial_state().id(), spec.init);
     q.push_back(spec.init);
+    for &(l, id) in seeds {
+        if map.contains_key(&l) || rev.contains_key(&id) || id >= a.num_states() {
+            return WalkResult::Mismatch(format!("seed ({}, {}) clashes with the reachable part", l, id));
+        }
+        map.insert(l, id);
+        rev.insert(id, l);
+        q.push_back(l);
+    }
     while let Some(l) = q.pop_front() {
         let sid = map[&l];
         let st = a.state(sid);
